@@ -121,7 +121,8 @@ NoKey == <<>>
 Sock0 == [st |-> "closed", kind |-> "", par |-> 0, des |-> Unresolved(Des4(DOff, DOff, DOff, DOff)),
           res |-> Unresolved(Des4(DOff, DOff, DOff, DOff)), ent |-> NoKey, mat |-> NoMat, fresh |-> TRUE, err |-> ""]
 Ld0 == [pc |-> "idle", s |-> 0, res |-> Sock0.res, ires |-> Sock0.res, h1 |-> NoKey, data |-> NoMat, i |-> 1, nf |-> 0,
-        snaps |-> {}, dirty |-> FALSE]
+        snaps |-> {}, dirty |-> FALSE,
+        tr |-> 0]     \* deviation retry_bound only: load attempts of this call that ended with changed files
 
 Init == /\ fs = FsInit
         /\ env = "d1"
@@ -205,14 +206,21 @@ Load(t) ==
                                  ![t].pc = IF j = 5 THEN "hash2" ELSE "load"]
              /\ UNCHANGED <<socks, cache, lock, path>>
 
+RetryBound == 3
 \* "retry if the files changed during the process"
 Hash2(t) ==
   /\ UNCHANGED <<fs, env, cnt>>
   /\ ld[t].pc = "hash2" /\ lock = t
   /\ IF HashFails(fs, ld[t].res)
      THEN Finish(t, FALSE, NoKey, NoMat) /\ UNCHANGED cache
-     ELSE /\ ld' = [ld EXCEPT ![t].pc = IF KeyOf(fs, ld[t].res) = ld[t].h1 THEN "install" ELSE "lookup",
-                              ![t].h1 = KeyOf(fs, ld[t].res), ![t].dirty = FALSE]
+     ELSE LET changed == KeyOf(fs, ld[t].res) # ld[t].h1
+              \* NAMED DEVIATION retry_bound (a vacuity guard, not a property of the code): the loop is bounded, and when
+              \* the last attempt still saw a change, what it read is installed under the key computed AFTER the read
+              giveup == "retry_bound" \in Dev /\ changed /\ ld[t].tr + 1 >= RetryBound
+          IN
+          /\ ld' = [ld EXCEPT ![t].pc = IF ~changed \/ giveup THEN "install" ELSE "lookup",
+                              ![t].h1 = KeyOf(fs, ld[t].res), ![t].dirty = FALSE,
+                              ![t].tr = IF "retry_bound" \in Dev /\ changed THEN @ + 1 ELSE @]
           /\ UNCHANGED <<socks, cache, lock, path>>
 
 Install(t) ==
